@@ -130,7 +130,10 @@ def explore(kind, cap, depth, prios):
                 samples.append({"structure": kind, "capacity": cap, "history": hist})
             continue
         events = []
-        fresh = 100 + d
+        # depth >= 1000 selects CLOSURE mode: every pushed value is the same constant, so the state is
+        # just the buffer of priorities and the search runs until no new state appears (complete
+        # reachable state space for that capacity and priority domain, no depth bound)
+        fresh = 100 + d if depth < 1000 else 7
         if kind == "stack":
             events.append(("push", fresh))
         else:
@@ -252,6 +255,10 @@ def run(ctx):
     prios = (0, 1, 2) if ctx.quick else (0, 1, 2, -1)
     caps = (1, 2, 3, 4) if ctx.quick else (1, 2, 3, 4, 5)
     items = [("stack", c, depth_s, ()) for c in caps] + [("pq", c, depth_q, prios) for c in caps]
+    # closure mode (see explore): the whole reachable heap-state space for larger capacities
+    items += [("pq", 7, 1000, (0, 1, 2)), ("pq", 8, 1000, (0, 1)), ("stack", 8, 1000, ())]
+    if not ctx.quick:
+        items += [("pq", 9, 1000, (0, 1, 2)), ("pq", 10, 1000, (0, 1)), ("pq", 7, 1000, (0, 1, 2, 3))]
     res = ctx.pmap(job, items, chunk=1)
     states = trans = complete = 0
     samples = []
